@@ -654,8 +654,112 @@ func twoObjects() {
 	fx.Settle()
 	vrt.Observe("childFirst=%v root=%v child=%v again=%v", childFirst, r1.got, c1w.got, r2.got)
 }
+// manySubscribers: twelve subscribers on twelve connections (more than any
+// ten-slot table of the implementation); every one receives every event once.
+func manySubscribers() {
+	collected = nil
+	w := fx.Start(bus.Yes{})
+	const n = 12
+	type sw struct {
+		got    []int32
+		closed bool
+	}
+	subs := make([]*sw, n)
+	cancels := make([]func(), n)
+	for i := 0; i < n; i++ {
+		i := i
+		c := w.MustConnect()
+		cancel, ch, err := c.Probe(1).SubscribeTick()
+		if err != nil {
+			vrt.Failf("subscribe-failed/many", "subscriber %d of %d: %v", i, n, err)
+			return
+		}
+		cancels[i] = cancel
+		subs[i] = &sw{}
+		vrt.GoNamed(fmt.Sprintf("drain-%d", i), func() {
+			for v := range ch {
+				subs[i].got = append(subs[i].got, v)
+			}
+			subs[i].closed = true
+		})
+	}
+	vrt.Quiesce()
+	leaver := vrt.ChooseFree(n+1, "one subscriber leaves first (or none)")
+	vrt.Explore()
+	if leaver < n {
+		cancels[leaver]()
+		vrt.Quiesce()
+	}
+	for k := int32(1); k <= 2; k++ {
+		if err := w.Root.Helper.SignalTick(k); err != nil {
+			failf("emit-error", "emitting tick(%d) failed: %v", k, err)
+		}
+		vrt.Quiesce()
+	}
+	for i, x := range subs {
+		want := "[1 2]"
+		if i == leaver {
+			want = "[]"
+		}
+		if fmt.Sprint(x.got) != want {
+			failf("many-subscribers/events-differ", "with %d subscribers on %d connections (subscriber %d left first), subscriber %d received %v, expected %s", n, n, leaver, i, x.got, want)
+			break
+		}
+	}
+	flush()
+	fx.Settle()
+	vrt.Observe("leaver=%d", leaver)
+}
+
+// cycles: the same proxy subscribes and cancels three times in a row; an
+// event after every step; then two subscribers at once: every window receives
+// exactly its own events, once.
+func cycles() {
+	collected = nil
+	w := fx.Start(bus.Yes{})
+	c1 := w.MustConnect()
+	p := c1.Probe(1)
+	vrt.Explore()
+	n := int32(0)
+	emit := func() int32 {
+		n++
+		if err := w.Root.Helper.SignalTick(n); err != nil {
+			failf("emit-error", "emitting tick(%d) failed: %v", n, err)
+		}
+		vrt.Quiesce()
+		return n
+	}
+	for cycle := 1; cycle <= 4; cycle++ {
+		x := subscribe(fmt.Sprintf("cycle%d", cycle), p, c1)
+		vrt.Quiesce()
+		a, b := emit(), emit()
+		x.stop()
+		vrt.Quiesce()
+		emit()
+		if x.err == nil && fmt.Sprint(x.got) != fmt.Sprint([]int32{a, b}) {
+			clause := "cycles/events-differ"
+			if len(x.got) > 2 {
+				clause = "cycles/event-duplicated"
+			}
+			failf(fmt.Sprintf("%s/cycle%d", clause, cycle), "subscription number %d on the same proxy received %v, the events emitted while it was open are [%d %d]", cycle, x.got, a, b)
+			break
+		}
+		if x.err == nil && !x.closed {
+			failf(fmt.Sprintf("channel-not-closed/cycle%d", cycle), "the channel of subscription number %d is still open after its cancellation", cycle)
+			break
+		}
+	}
+	checkTap("conn1", c1)
+	flush()
+	fx.Settle()
+	vrt.Observe("n=%d", n)
+}
 
 func init() {
+	reg.Register(&reg.Scenario{Property: "C13", Name: "twelve-subscribers", Body: manySubscribers, Quick: 0, Thorough: 0,
+		Doc: "twelve subscribers on twelve connections, one of them (each in turn, or none) leaves, two events: every remaining subscriber receives both once"})
+	reg.Register(&reg.Scenario{Property: "C13", Name: "four-subscription-cycles", Body: cycles, Quick: 0, Thorough: 1,
+		Doc: "the same proxy subscribes, gets two events, cancels, misses one - four times in a row: each window receives exactly its own events once, nothing after the acknowledged removal"})
 	reg.Register(&reg.Scenario{Property: "C13", Name: "two-objects-one-connection", Body: twoObjects, Quick: 0, Thorough: 1,
 		Doc: "the tick signal of the service object and of a second object of the same service, both followed through one connection: subscribe both, cancel one, subscribe it again, cancel the other; each receives exactly its own object's events"})
 	reg.Register(&reg.Scenario{Property: "C13", Name: "cancel-with-done-context", Body: ctxCancelled, Quick: 0, Thorough: 1,
